@@ -1,6 +1,7 @@
 """C04 — unmodified records and fields are written back byte-for-byte."""
 import atexit
 import gzip
+import contextlib
 import hashlib
 import os
 import shutil
@@ -34,6 +35,8 @@ RULE = ("grammar-generated BED/BED6/narrowPeak/VCF/VCF-with-genotypes/VCF-with-d
         "concatenation of such a table) gives rise to a second table (replace of another or the same column, selection + assignment, "
         "concatenation + assignment, a written copy, a cached read), then M - or a selection / concatenation made from it afterwards - "
         "is written and shows its own replacement only (`obj` nodes: one Python object per named table); "
+        "the documented switches of laziness (config.LAZY assigned / ConfigContext x lazy= keyword x default; the keyword wins): every "
+        "combination asking for lazy reading gives a lazy object and the pass-through (15% of the random cases + a fixed family); "
         "observable = bytes written by bnp.open(out,'w').write(result). Non-trivial = program has >= 2 steps and the selection "
         "is a proper/re-ordered/repeated subset, or >= 1 replaced field")
 EXHAUSTIVE = {"quick": False, "thorough": False}
@@ -85,6 +88,47 @@ MANIFEST = {
     "technique": "Lean 4 refinement proof (induction over programs) + differential correspondence with the implementation",
     "design": "§6 C04",
 }
+
+# the documented switches of laziness: [bionumpy.config.LAZY (None = left alone), the lazy= keyword of bnp.open (None = not
+# passed), how the config value is set ("assign" / "ctx" = config.ConfigContext)]. Precedence: the keyword wins, then the config.
+SWITCHES_LAZY = [[None, None, ""], [None, True, ""], [True, None, "assign"], [True, None, "ctx"], [True, True, "ctx"],
+                 [False, True, "assign"], [False, True, "ctx"]]
+SWITCHES_EAGER = [[None, False, ""], [True, False, "assign"], [True, False, "ctx"], [False, False, "ctx"], [False, None, "assign"],
+                  [False, None, "ctx"]]
+_OPEN_KW = {}
+CTX_LEAK = [False]
+
+
+class NotLazy(Exception):
+    pass
+
+
+@contextlib.contextmanager
+def switches(sw):
+    """apply one combination of the switches for the duration of a run; yields the keyword arguments for bnp.open"""
+    cfgval, kw, via = sw or [None, None, ""]
+    import bionumpy.config as cfg
+    old = cfg.LAZY
+    ctx = None
+    try:
+        if cfgval is not None:
+            if via == "ctx":
+                ctx = cfg.ConfigContext(LAZY=cfgval)
+                ctx.__enter__()
+            else:
+                cfg.LAZY = cfgval
+        yield ({} if kw is None else {"lazy": kw})
+    finally:
+        if ctx is not None:
+            ctx.__exit__(None, None, None)
+            if cfg.LAZY != old:      # leaving the context must restore the previous value
+                CTX_LEAK[0] = True
+        cfg.LAZY = old
+
+
+def is_lazy(t):
+    return any(k.__name__ == "LazyBNPDataClass" for k in type(t).__mro__)
+
 
 _TMP = None
 
@@ -406,6 +450,8 @@ def make_case(rng, fmt, depth, replace_p=0.3, eol=None):
         c["repl"] = [[k, rep[k], _new_values(rng, rep[k], n)] for k in ks]
     if not fixed and rng.random() < 0.12:
         c = _nofinal(c)
+    if not fixed and rng.random() < 0.15:
+        c["sw"] = rng.choice(SWITCHES_LAZY[1:])
     return _set_op(c)
 
 
@@ -760,6 +806,18 @@ def cases(tier, rng):
                         yield _set_op(dict(base, prog={"seq": [{"set": d0, "kw": KW(k1, 5)},
                                                               {"seq": [{"touch": {"rep": d0, "kw": KW(k2, 5)}},
                                                                        {"sel": d0, "ix": {"slice": [None, None, 2]}}]}]}))
+    # 0g. the documented switches of laziness and their precedence: config.LAZY (assigned or through ConfigContext) x the
+    #     lazy= keyword x default - every combination that asks for lazy reading must give the pass-through (and a lazy object)
+    for fmt in fmts:
+        for eol in (["\n"] if fmt == "bam" else ["\n", "\r\n"]):
+            base = make_case(rng, fmt, 0, 0, eol)
+            n0 = len(base["recs"][0])
+            progs = [{"t": 0}, {"sel": {"t": 0}, "ix": {"ints": [n0 - 1, 0]}}]
+            if fmt != "bam":
+                progs += [{"t": 0, "chunk": 1}, {"cat": [{"t": 0}, {"sel": {"t": 0}, "ix": {"slice": [None, None, -1]}}]}]
+            for sw in SWITCHES_LAZY[1:]:
+                for p in (progs if big else rng.sample(progs, 2)):
+                    yield _set_op(dict(base, prog=p, sw=sw))
     # 1. random programs
     for fmt in fmts:
         m = per if fmt not in ("gtf", "bam") else per // 3
@@ -1051,6 +1109,14 @@ def _np_idx(ix):
 
 
 _LEAVES = {}
+_EXPECT_LAZY = [True]
+
+
+def _lazy_checked(t):
+    """every combination of switches used by this check asks for a lazily read table: an eager one is the wrong answer already"""
+    if _EXPECT_LAZY[0] and len(t) and not is_lazy(t):
+        raise NotLazy()
+    return t
 
 
 def _run(p, paths, bt, bnp, scratch):
@@ -1061,22 +1127,22 @@ def _run(p, paths, bt, bnp, scratch):
             # all chunks of table k are handed out by ONE reader (objects of the same lazy class, sharing the reader's state)
             key = (p["t"], "parts", p["psize"])
             if key not in _LEAVES:
-                f = bnp.open(paths[p["t"]], buffer_type=bt)
+                f = bnp.open(paths[p["t"]], buffer_type=bt, **_OPEN_KW)
                 chunks = []
                 for _ in range(len(p["plens"]) + 1):
                     ch = f.read_chunk(min_chunk_size=p["psize"])
                     if len(ch) == 0:
                         break
-                    chunks.append(ch)
+                    chunks.append(_lazy_checked(ch))
                 _LEAVES[key] = chunks
             return _LEAVES[key][p["part"]]
         key = (p["t"], p.get("chunk"))
         if key not in _LEAVES:
-            f = bnp.open(paths[p["t"]], buffer_type=bt)
+            f = bnp.open(paths[p["t"]], buffer_type=bt, **_OPEN_KW)
             if "chunk" in p:
-                _LEAVES[key] = np.concatenate(list(f.read_chunks(min_chunk_size=p["chunk"])))
+                _LEAVES[key] = np.concatenate([_lazy_checked(ch) for ch in f.read_chunks(min_chunk_size=p["chunk"])])
             else:
-                _LEAVES[key] = f.read()
+                _LEAVES[key] = _lazy_checked(f.read())
         return _LEAVES[key]
     if "seq" in p:
         _run(p["seq"][0], paths, bt, bnp, scratch)
@@ -1102,7 +1168,7 @@ def _run(p, paths, bt, bnp, scratch):
     if "cat" in p:
         return np.concatenate([_run(q, paths, bt, bnp, scratch) for q in p["cat"]])
     if "catall" in p:
-        return np.concatenate([bnp.open(q, buffer_type=bt).read() for q in paths[:p["catall"]]])
+        return np.concatenate([_lazy_checked(bnp.open(q, buffer_type=bt, **_OPEN_KW).read()) for q in paths[:p["catall"]]])
     if "touch" in p:
         t = _run(p["touch"], paths, bt, bnp, scratch)
         with bnp.open(scratch, "w", buffer_type=bt) as w:
@@ -1135,6 +1201,18 @@ _FMT_OF = {}
 
 
 def impl(c):
+    import bionumpy as bnp
+    from bionumpy.bnpdataclass import replace
+    CTX_LEAK[0] = False
+    with switches(c.get("sw")) as kw:
+        _OPEN_KW.clear()
+        _OPEN_KW.update(kw)
+        _EXPECT_LAZY[0] = c["fmt"] != "gtf"
+        r = _impl(c)
+    return {"err": "other:ConfigContextLeak"} if CTX_LEAK[0] else r
+
+
+def _impl(c):
     import bionumpy as bnp
     from bionumpy.bnpdataclass import replace
     d, paths = _write_tables(c)
